@@ -617,3 +617,24 @@ Proof.
   split; [exact H1|]. split; [exact H2|]. intros k d'. apply close_rename_failure_keeps_old.
 Qed.
 Print Assumptions c18_close_rename_failure_keeps_old.
+
+(* ======================================================================== wave 7 *)
+From C18 Require Import ProofsRepeat.
+
+(* Repetition and resources.  Every complete save script - successful (any chunking), with failing
+   writes, with a failing close, with a failing rename - closes the one descriptor it opens: the
+   number of descriptors the saver holds is the same after the save as before, so no number of
+   saves can exhaust them.  And after ANY history that ends with a completed save (e.g. hundreds of
+   set+save rounds through the long-lived saver thread) the file is exactly the store. *)
+Theorem c18_repeated_saves :
+  (forall h0 chunks, fd_balance (script_of_chunks chunks) h0 = h0) /\
+  (forall h0 body, Forall (fun x => tmp_write x = true) body -> fd_balance (script_failed body) h0 = h0) /\
+  (forall h0 chunks, fd_balance (script_close_failed chunks) h0 = h0 /\ fd_balance (script_rename_failed chunks) h0 = h0) /\
+  (forall h st, inv st -> Forall op_ok h ->
+     exists st', run_ops st (h ++ [OSave]) = Done st' /\ inv st' /\
+                 f_conf (disk st') = Some (save_bytes (mem st')) /\ restart (disk st') = mem st').
+Proof.
+  split; [intros h0; apply (scripts_balanced h0)|]. split; [intros h0; apply (scripts_balanced h0)|].
+  split; [intros h0 chunks; split; apply (scripts_balanced h0)|exact last_save_wins].
+Qed.
+Print Assumptions c18_repeated_saves.
